@@ -2,7 +2,6 @@ package rules
 
 import (
 	"fmt"
-	"go/ast"
 	"go/types"
 
 	"osmcheck/core"
@@ -10,55 +9,76 @@ import (
 
 // ---- J3 --------------------------------------------------------------------------------------
 
-// c05TypeConstOf derives the osm.Type constant T's object id decodes to: the mask constants that label the
-// cases of ObjectID.Type() and are referenced by the functions (*T).ObjectID reaches; exactly one is required.
+// c05TypeConstOf derives the osm.Type constant T's object id decodes to, by evaluation: (*T).ObjectID() is explored
+// with the id and version fields zero (the packed id is then the kind mask alone, whatever helper or constant packs
+// it), and the Type() method of the result's type is explored on that value. How the kind is stored in the id and how
+// Type() recovers it (a switch on the mask, a lookup table indexed by the tag bits, a map) does not matter as long as
+// it is computed from constants.
 func c05TypeConstOf(r *core.R, T types.Type) (string, string) {
-	pk := c03OsmPkg(r.P)
-	info := pk.TypesInfo
-	tm := findFunc(pk, "ObjectID.Type")
-	if tm == nil {
-		return "", "osm.ObjectID.Type not found"
-	}
-	labels := map[types.Object]string{} // mask constant -> Type constant value
-	ast.Inspect(tm.Decl.Body, func(n ast.Node) bool {
-		cc, ok := n.(*ast.CaseClause)
-		if !ok || len(cc.List) != 1 || len(cc.Body) != 1 {
-			return true
-		}
-		rs, ok := cc.Body[0].(*ast.ReturnStmt)
-		if !ok || len(rs.Results) != 1 {
-			return true
-		}
-		if v, ok := constString(info, rs.Results[0]); ok {
-			if o := objOf(info, cc.List[0]); o != nil {
-				labels[o] = v
-			}
-		}
-		return true
-	})
-	if len(labels) == 0 {
-		return "", "ObjectID.Type() has no `case <mask>: return Type<X>` table"
-	}
 	om := c03FuncInfoOf(r.P, c03Method(T, "ObjectID"))
 	if om == nil {
 		return "", c03Short(T) + " has no ObjectID method in the repository"
 	}
-	hit := map[string]bool{}
-	for _, fi := range c03Callees(r.P, om, 5) {
-		ast.Inspect(fi.Decl.Body, func(n ast.Node) bool {
-			if id, ok := n.(*ast.Ident); ok {
-				if v, ok := labels[fi.Pkg.TypesInfo.Uses[id]]; ok {
-					hit[v] = true
+	recv := c03Receiver(om)
+	x := &c03Interp{P: r.P,
+		Inline: func(fn *types.Func) bool { return true },
+		Init: func(v *c03V) *c03V {
+			if v.IsInit("param") && v.Root.Obj == recv && len(v.Path) > 0 {
+				if b, ok := v.T.Underlying().(*types.Basic); ok && b.Info()&types.IsInteger != 0 {
+					return &c03V{K: c03KInt, Int: 0, T: v.T}
 				}
 			}
-			return true
-		})
+			if v.IsInit("param") && v.Root.Obj == recv {
+				v.Z = triF
+			}
+			return v
+		}}
+	var id *c03V
+	for _, pa := range x.Run(om, nil) {
+		if pa.End != "return" || len(pa.Ret) != 1 || pa.Ret[0].K != c03KInt {
+			return "", fmt.Sprintf("(*%s).ObjectID() with a zero id does not evaluate to a constant (%s): the kind bits cannot be read off", c03TypeName(T), c03PathResult(pa))
+		}
+		if id != nil && id.Int != pa.Ret[0].Int {
+			return "", fmt.Sprintf("(*%s).ObjectID() with a zero id evaluates to different values on different paths", c03TypeName(T))
+		}
+		id = pa.Ret[0]
 	}
-	ks := c03SortedKeys(hit)
+	if id == nil || x.Aborted != "" {
+		return "", fmt.Sprintf("(*%s).ObjectID() could not be explored: %s", c03TypeName(T), x.Aborted)
+	}
+	tm := c03FuncInfoOf(r.P, c03Method(id.T, "Type"))
+	if tm == nil {
+		return "", c03ShortT(id.T) + " has no Type method in the repository"
+	}
+	tx := &c03Interp{P: r.P, Inline: func(fn *types.Func) bool { return true }}
+	trecv := c03Receiver(tm)
+	got := map[string]bool{}
+	for _, pa := range tx.Run(tm, func(st *c03State) { st.vars[trecv] = id }) {
+		if pa.End != "return" || len(pa.Ret) != 1 || pa.Ret[0].K != c03KStr {
+			return "", fmt.Sprintf("%s(%#x).Type() does not evaluate to a Type constant (%s)", c03ShortT(id.T), uint64(id.Int), c03PathResult(pa))
+		}
+		got[pa.Ret[0].Str] = true
+	}
+	if tx.Aborted != "" {
+		return "", "Type() could not be explored: " + tx.Aborted
+	}
+	ks := c03SortedKeys(got)
 	if len(ks) != 1 {
-		return "", fmt.Sprintf("the functions (*%s).ObjectID reaches reference %d type masks %v; exactly one expected", c03TypeName(T), len(ks), ks)
+		return "", fmt.Sprintf("%s(%#x).Type() evaluates to %d values %v; exactly one expected", c03ShortT(id.T), uint64(id.Int), len(ks), ks)
 	}
 	return ks[0], ""
+}
+
+// c03PathResult renders how a path ended, for diagnostics.
+func c03PathResult(pa *c03Path) string {
+	s := "the path ends with " + pa.End
+	for _, rv := range pa.Ret {
+		s += " " + rv.String()
+	}
+	if pa.Why != "" {
+		s += " (" + pa.Why + ")"
+	}
+	return s
 }
 
 func c05J3(r *core.R) {
